@@ -70,6 +70,8 @@ const POSITIONS: &[(&str, &str)] = &[
     ("after-font-face", "@font-face{k:v}"),
     // with convert_host on: the rule leaves nothing in the normal output, it is a preceding rule all the same
     ("after-converted-host-rule", ":host{k:v}"),
+    // two imports in a row after a rule: both are misplaced
+    ("after-rule-and-import", ".r{k:v}@import \"z\";"),
 ];
 
 fn percent_decode(s: &str) -> Option<String> {
@@ -102,9 +104,11 @@ struct Case {
     pos: usize,
     sign: bool,
     trailing_rule: bool,
+    /// a class prefix is configured as well (layer names are not class names)
+    prefix: bool,
 }
 
-fn make_case(path: &str, form: Form, layer: usize, supports: usize, media: usize, pos: usize, sign: bool, trailing_rule: bool) -> Case {
+fn make_case(path: &str, form: Form, layer: usize, supports: usize, media: usize, pos: usize, sign: bool, trailing_rule: bool, prefix: bool) -> Case {
     let mut t = String::new();
     t.push_str(POSITIONS[pos].1);
     t.push_str("@import ");
@@ -127,7 +131,7 @@ fn make_case(path: &str, form: Form, layer: usize, supports: usize, media: usize
     if trailing_rule {
         t.push_str(".t{k:v}");
     }
-    Case { text: t, path: path.to_string(), form, layer, supports, media, pos, sign, trailing_rule }
+    Case { text: t, path: path.to_string(), form, layer, supports, media, pos, sign, trailing_rule, prefix }
 }
 
 fn nonws(css: &str) -> Vec<T> {
@@ -136,14 +140,20 @@ fn nonws(css: &str) -> Vec<T> {
 
 /// expected tokens of a pass-through fragment under the documented rewrites (rpx only; no classes used with prefix here)
 fn passthrough(fragment: &str, opts: &Opts) -> Vec<T> {
-    nonws(fragment)
-        .into_iter()
-        .filter(|t| !matches!(t, T::Comment(_)))
-        .map(|t| match &t {
+    let toks: Vec<T> = nonws(fragment).into_iter().filter(|t| !matches!(t, T::Comment(_))).collect();
+    let mut out: Vec<T> = vec![];
+    for (i, t) in toks.iter().enumerate() {
+        out.push(match t {
             T::Dim { v, sign, unit, .. } if unit == "rpx" => T::Dim { v: rpx_expected(*v, opts.rpx_ratio), int: None, sign: *sign, unit: "vw".into() },
-            _ => t,
-        })
-        .collect()
+            // with a class prefix: the fragments of this alphabet write every class selector as a dot that does not follow
+            // an identifier (`.r`, `.s`, `.t`); a dot after an identifier only occurs in the dotted layer name `a.b.c`
+            T::Ident(x) if opts.class_prefix.is_some() && i >= 1 && toks[i - 1] == T::Delim('.') && !(i >= 2 && matches!(toks[i - 2], T::Ident(_))) => {
+                T::Ident(format!("{}--{}", opts.class_prefix.as_ref().unwrap(), x))
+            }
+            _ => t.clone(),
+        });
+    }
+    out
 }
 
 fn check(c: &Case) -> Result<Option<Vec<(String, String)>>, String> {
@@ -160,7 +170,7 @@ fn check(c: &Case) -> Result<Option<Vec<(String, String)>>, String> {
         return Ok(None);
     }
     let conv = POSITIONS[c.pos].0 == "after-converted-host-rule";
-    let opts = Opts { import_sign: if c.sign { Some("I".into()) } else { None }, convert_host: conv, ..Default::default() };
+    let opts = Opts { import_sign: if c.sign { Some("I".into()) } else { None }, convert_host: conv, class_prefix: if c.prefix { Some("p".into()) } else { None }, ..Default::default() };
     let run = css::transform("i.wxss", &c.text, &opts, 0, false).map_err(|(s, m)| crate::common::panic_err(&c.text, &opts.to_json(), &s, &m))?;
     let act: Vec<T> = nonws(&run.normal);
     let mut problems = vec![];
@@ -169,6 +179,9 @@ fn check(c: &Case) -> Result<Option<Vec<(String, String)>>, String> {
         exp = passthrough(if conv { &c.text[POSITIONS[c.pos].1.len()..] } else { &c.text }, &opts);
     } else {
         if c.pos == 1 {
+            exp.push(T::Comment("I z".into()));
+        } else if POSITIONS[c.pos].0 == "after-rule-and-import" {
+            exp.extend(passthrough(".r{k:v}", &opts));
             exp.push(T::Comment("I z".into()));
         } else if !conv {
             exp.extend(passthrough(POSITIONS[c.pos].1, &opts));
@@ -234,8 +247,9 @@ fn check(c: &Case) -> Result<Option<Vec<(String, String)>>, String> {
         if c.pos == 0 && flagged != 0 {
             problems.push(("import-at-top-flagged".into(), format!("{} warnings", flagged)));
         }
-        if c.pos >= 2 && flagged == 0 {
-            problems.push(("import-after-rule-not-flagged".into(), format!("position {}", POSITIONS[c.pos].0)));
+        let misplaced = if c.pos < 2 { 0 } else if POSITIONS[c.pos].0 == "after-rule-and-import" { 2 } else { 1 };
+        if c.pos >= 2 && flagged != misplaced {
+            problems.push(("import-after-rule-not-flagged".into(), format!("position {}: {} imports stand after another rule, {} are flagged", POSITIONS[c.pos].0, misplaced, flagged)));
         }
         if others != 0 {
             problems.push(("unexpected-warning".into(), format!("{:?}", run.warnings)));
@@ -247,8 +261,10 @@ fn check(c: &Case) -> Result<Option<Vec<(String, String)>>, String> {
 }
 
 fn case_of(i: u64, maxlen: u32) -> Case {
-    // index layout: [path][form][layer][supports][media][pos][sign][trailing]
+    // index layout: [path][form][layer][supports][media][pos][sign][trailing][prefix]
     let mut k = i;
+    let prefix = k % 2 == 1;
+    k /= 2;
     let trailing = k % 2 == 1;
     k /= 2;
     let sign = k % 2 == 0;
@@ -265,14 +281,14 @@ fn case_of(i: u64, maxlen: u32) -> Case {
     k /= 4;
     let idx = str_unrank(k, SIGMA_P.len() as u64, maxlen);
     let path: String = idx.iter().map(|x| SIGMA_P[*x]).collect();
-    make_case(&path, form, layer, supports, media, pos, sign, trailing)
+    make_case(&path, form, layer, supports, media, pos, sign, trailing, prefix)
 }
 
 pub fn explore(thorough: bool, result_path: &str) {
     silence_panics();
     let maxlen = if thorough { 4 } else { 3 };
     let npaths = str_space_size(SIGMA_P.len() as u64, maxlen);
-    let per_path = 4 * LAYERS.len() as u64 * SUPPORTS.len() as u64 * MEDIA.len() as u64 * POSITIONS.len() as u64 * 2 * 2;
+    let per_path = 4 * LAYERS.len() as u64 * SUPPORTS.len() as u64 * MEDIA.len() as u64 * POSITIONS.len() as u64 * 2 * 2 * 2;
     // quick: paths of length <= 3 with the full condition cube only for length <= 2; longer paths with a reduced cube
     let full = if thorough { str_space_size(SIGMA_P.len() as u64, 3) } else { str_space_size(SIGMA_P.len() as u64, 2) };
     let reduced_per_path: u64 = 4 * 2; // form x sign, with one fixed condition set
@@ -286,7 +302,7 @@ pub fn explore(thorough: bool, result_path: &str) {
             let r = k % reduced_per_path;
             let idx = str_unrank(p, SIGMA_P.len() as u64, maxlen);
             let path: String = idx.iter().map(|x| SIGMA_P[*x]).collect();
-            make_case(&path, FORMS[(r % 4) as usize], 1, 0, 3, if r / 4 == 0 { 0 } else { 2 }, r / 4 == 0 || true, false)
+            make_case(&path, FORMS[(r % 4) as usize], 1, 0, 3, if r / 4 == 0 { 0 } else { 2 }, r / 4 == 0 || true, false, false)
         };
         rep.transitions += 1;
         match check(&c) {
@@ -307,7 +323,7 @@ pub fn explore(thorough: bool, result_path: &str) {
                     rep.violation(Violation {
                         fingerprint: format!("C18|{}|form={}|sign={}", kind, if c.form == Form::Url || c.form == Form::UrlDq { "url" } else { "string" }, c.sign),
                         what: format!("{} for {:?} (form {}, position {}): {}", kind, c.text, form, POSITIONS[c.pos].0, detail.chars().take(400).collect::<String>()),
-                        replay: json!({"engine": "c18", "path": c.path, "form": form, "layer": c.layer, "supports": c.supports, "media": c.media, "pos": c.pos, "sign": c.sign, "trailing": c.trailing_rule, "input": c.text}),
+                        replay: json!({"engine": "c18", "path": c.path, "form": form, "layer": c.layer, "supports": c.supports, "media": c.media, "pos": c.pos, "sign": c.sign, "trailing": c.trailing_rule, "prefix": c.prefix, "input": c.text}),
                     });
                 }
             }
@@ -315,7 +331,7 @@ pub fn explore(thorough: bool, result_path: &str) {
     });
     let res = rep.to_result(
         "C18",
-        "every import path over the 18-symbol alphabet up to the stated length, in string / url forms, with every combination of layer() / supports() / media conditions at every listed position, with and without an import sign; non-trivial = an import sign is configured; distinct = distinct input text",
+        "every import path over the 18-symbol alphabet up to the stated length, in string / url forms, with every combination of layer() / supports() / media conditions at every listed position, with and without an import sign, with and without a class prefix; non-trivial = an import sign is configured; distinct = distinct input text",
         json!({"path_alphabet": SIGMA_P, "path_length_full_cube": if thorough {3} else {2}, "path_length_reduced_cube": maxlen, "forms": ["\"…\"", "'…'", "url(…)", "url(\"…\")"], "media": MEDIA, "supports_conditions": SUPPORTS, "layer_conditions": LAYERS.iter().map(|l| l.0).collect::<Vec<_>>(), "positions": POSITIONS.iter().map(|p| p.0).collect::<Vec<_>>()}),
         true,
         &["cssparser tokenizer gives the path a spelling denotes and the tokens of the output", "an independent percent-decoder recovers the path from the placeholder"],
@@ -332,7 +348,7 @@ pub fn replay(v: &Value) -> Value {
         "UrlDq" => Form::UrlDq,
         _ => Form::Dq,
     };
-    let c = make_case(v["path"].as_str().unwrap(), form, v["layer"].as_u64().unwrap() as usize, v["supports"].as_u64().unwrap() as usize, v["media"].as_u64().unwrap() as usize, v["pos"].as_u64().unwrap() as usize, v["sign"].as_bool().unwrap(), v["trailing"].as_bool().unwrap());
+    let c = make_case(v["path"].as_str().unwrap(), form, v["layer"].as_u64().unwrap() as usize, v["supports"].as_u64().unwrap() as usize, v["media"].as_u64().unwrap() as usize, v["pos"].as_u64().unwrap() as usize, v["sign"].as_bool().unwrap(), v["trailing"].as_bool().unwrap(), v["prefix"].as_bool().unwrap_or(false));
     let go = || match check(&c) {
         Ok(Some(p)) => p.into_iter().map(|x| format!("{}: {}", x.0, x.1)).collect::<Vec<_>>(),
         Ok(None) => vec![],
